@@ -4,7 +4,7 @@
 cd /verif
 for id in "$@"; do
   (
-  W=/tmp/wt/$id
+  W=${WT_ROOT:-/tmp/wt}/$id
   for p in $W/REFAC/R*/patch.diff; do
     [ -f "$p" ] || continue
     V=$(basename $(dirname $p)); D=benign/$id-$V
